@@ -432,6 +432,7 @@ where
                     &tsig_rr,
                     now,
                     &mut context.response,
+                    &mut context.send_response,
                 ) {
                     Some(algorithm) => algorithm,
                     None => return,
@@ -443,6 +444,7 @@ where
                     &tsig_keys,
                     now,
                     &mut context.response,
+                    &mut context.send_response,
                 ) {
                     Some(key) => key,
                     None => return,
@@ -454,6 +456,7 @@ where
                     key,
                     now,
                     &mut context.response,
+                    &mut context.send_response,
                 ) {
                     return;
                 }
@@ -624,19 +627,20 @@ fn find_tsig_algorithm_or_write_error(
     tsig_rr: &ReadTsigRr,
     now: TimeSigned,
     response: &mut Writer,
+    send_response: &mut bool,
 ) -> Option<Algorithm> {
     if let Some(algorithm) = Algorithm::from_name(tsig_rr.algorithm()) {
         Some(algorithm)
     } else {
         response.set_rcode(Rcode::NOTAUTH);
-        response
-            .set_tsig(
-                writer::TsigMode::Unsigned {
-                    algorithm: tsig_rr.algorithm().to_owned(),
-                },
-                PreparedTsigRr::new_from_read(tsig_rr, now, TSIG_FUDGE, ExtendedRcode::BADKEY),
-            )
-            .unwrap();
+        set_tsig_or_drop_response(
+            response,
+            send_response,
+            writer::TsigMode::Unsigned {
+                algorithm: tsig_rr.algorithm().to_owned(),
+            },
+            PreparedTsigRr::new_from_read(tsig_rr, now, TSIG_FUDGE, ExtendedRcode::BADKEY),
+        );
         None
     }
 }
@@ -650,6 +654,7 @@ fn find_tsig_key_or_write_error<'k>(
     tsig_keys: &'k TsigKeyMap,
     now: TimeSigned,
     response: &mut Writer,
+    send_response: &mut bool,
 ) -> Option<&'k [u8]> {
     // We need to (a) find the key with the name specified by the
     // received TSIG RR, and (b) make sure that the algorithm associated
@@ -661,14 +666,14 @@ fn find_tsig_key_or_write_error<'k>(
         Some(key)
     } else {
         response.set_rcode(Rcode::NOTAUTH);
-        response
-            .set_tsig(
-                writer::TsigMode::Unsigned {
-                    algorithm: tsig_rr.algorithm().to_owned(),
-                },
-                PreparedTsigRr::new_from_read(tsig_rr, now, TSIG_FUDGE, ExtendedRcode::BADKEY),
-            )
-            .unwrap();
+        set_tsig_or_drop_response(
+            response,
+            send_response,
+            writer::TsigMode::Unsigned {
+                algorithm: tsig_rr.algorithm().to_owned(),
+            },
+            PreparedTsigRr::new_from_read(tsig_rr, now, TSIG_FUDGE, ExtendedRcode::BADKEY),
+        );
         None
     }
 }
@@ -687,6 +692,7 @@ fn verify_tsig_and_write_tsig_rr(
     key: &[u8],
     now: TimeSigned,
     response: &mut Writer,
+    send_response: &mut bool,
 ) -> bool {
     let (rcode, tsig_err, mode) =
         match tsig_rr.verify_request(message_without_tsig, algorithm, key, now) {
@@ -730,13 +736,31 @@ fn verify_tsig_and_write_tsig_rr(
         };
 
     response.set_rcode(rcode);
-    response
-        .set_tsig(
-            mode,
-            PreparedTsigRr::new_from_read(tsig_rr, now, TSIG_FUDGE, tsig_err),
-        )
-        .unwrap();
-    rcode == Rcode::NOERROR
+    set_tsig_or_drop_response(
+        response,
+        send_response,
+        mode,
+        PreparedTsigRr::new_from_read(tsig_rr, now, TSIG_FUDGE, tsig_err),
+    ) && rcode == Rcode::NOERROR
+}
+
+/// Adds a TSIG RR to the response. If there is no room for it within
+/// the response's size limit (which can happen over UDP with very long
+/// key or algorithm names), then no response that the requestor could
+/// authenticate can be produced; in that case the response is dropped
+/// and `false` is returned.
+fn set_tsig_or_drop_response(
+    response: &mut Writer,
+    send_response: &mut bool,
+    mode: writer::TsigMode,
+    rr: PreparedTsigRr,
+) -> bool {
+    if response.set_tsig(mode, rr).is_ok() {
+        true
+    } else {
+        *send_response = false;
+        false
+    }
 }
 
 ////////////////////////////////////////////////////////////////////////
